@@ -3,7 +3,9 @@
 Builder model (coq/C20): json_builder.go + the result assembly of DataSource.Load.
 Tie: harness/cmd/c20 drives the real DataSource.Load against the repo's mapped schema and mock
 service; the extracted model is run on the dumped plans + protobuf trees (corr:C20/build) and the
-extracted spec checkers on the implementation's JSON (S1 shape, S2 consistency)."""
+extracted spec checkers on the implementation's JSON (S1 shape, S2 consistency, S3 projection of the
+service data: null-ness / list lengths / abstract member / scalar leaves against the dumped protobuf
+answers, positions aligned by schema + GRPCMapping only)."""
 import json
 import os
 import re
@@ -93,6 +95,10 @@ def run(chk):
         "not modelled, reached only through the differential: execution_plan_visitor*.go (operation -> plan), compiler.go (variables -> "
         "protobuf request), the dependency graph of fetch.go, astnormalization; the harness' own CollectFields / shape computation "
         "(harness/cmd/c20/shape.go) and the plan / protobuf / JSON dumpers (dump.go) are trusted",
+        "S3 (projection): the protobuf conventions of the mapped schema ([T!]! = repeated field, every other list = wrapper message "
+        "{list{items}}, nullable scalar = wrapper with `value`, abstract type = oneof `value` / `instance`) and the GraphQL-field -> "
+        "protobuf-field names of GRPCMapping are taken as given; root keys are matched to std calls by RPC name (two root fields on one "
+        "RPC: the value must be the projection of one of the answers); values of field resolvers / @requires fields are not examined",
         "the mock service v2/pkg/grpctest is made a function of (method, request) per group by a memoising RPCTransport wrapper; "
         "non-null is not enforced for object-typed, enum-typed and wrapper-list-typed positions (absence there is the service's data)",
     ]
